@@ -527,7 +527,26 @@ func c14Families(p *chk.Prog, r *chk.Report) {
 		sites := append([]chk.Site{}, g.FindPat("P."+set+".Insert(V)")...)
 		sites = append(sites, aliasSites[set]...)
 		for _, s := range sites {
-			x.Check(set+":by-community-kind", s.Pos(), g.Dominated(s, want), "", set+" receives a community of the other kind (a large community is also announced as a standard one, or the reverse): the route-map sets an attribute nobody requested")
+			okKind := g.Dominated(s, want)
+			if call, isCall := s.Node.(*ast.CallExpr); isCall && !okKind && call.Ellipsis.IsValid() && len(call.Args) == 1 {
+				// a whole list inserted at once: every element of that list was appended under the kind test
+				if id, isId := ast.Unparen(call.Args[0]).(*ast.Ident); isId {
+					srcs := flowSources(f, f.ObjOf(id))
+					srcs[f.ObjOf(id)] = true
+					nApp := 0
+					okKind = true
+					for o := range srcs {
+						for _, a := range g.Find(f.IsAssignPat("L", "append(L, ETC)", chk.H("L", f.IsObj(o)))) {
+							nApp++
+							if !g.Dominated(a, want) {
+								okKind = false
+							}
+						}
+					}
+					okKind = okKind && nApp >= 1
+				}
+			}
+			x.Check(set+":by-community-kind", s.Pos(), okKind, "", set+" receives a community of the other kind (a large community is also announced as a standard one, or the reverse): the route-map sets an attribute nobody requested")
 		}
 	}
 	for _, s := range g.Find(f.IsAssignPat("L", "append(L, C.String())")) {
